@@ -2001,7 +2001,7 @@ func t2c19Label(c *Ctx, p *packages.Package, labelVar *types.Var, unknown *types
 	if tVar == nil && getType != nil {
 		// GetType and Label share one decoder g(cert) (type, *KeyID): GetType is g's first result, and g's second result
 		// is the KeyID decoded from its parameter's KeyId (nil only together with the unknown type)
-		if g := t2sharedDecoder(p, getType, unknown); g != nil {
+		if g := t2sharedDecoder(c.w, p, getType, unknown); g != nil {
 			ast.Inspect(fd.Body, func(n ast.Node) bool {
 				as, ok := n.(*ast.AssignStmt)
 				if !ok || len(as.Rhs) != 1 || len(as.Lhs) != 2 {
@@ -2136,7 +2136,7 @@ func t2c19Label(c *Ctx, p *packages.Package, labelVar *types.Var, unknown *types
 // t2sharedDecoder: the package function g such that GetType(cert) is exactly g(cert)'s first result and g's second
 // result is the KeyID decoded by keyid.Unmarshal(<g's parameter>.KeyId), nil only where the first result is the
 // unknown type. nil when GetType has another shape.
-func t2sharedDecoder(p *packages.Package, getType *types.Func, unknown *types.Const) *types.Func {
+func t2sharedDecoder(w *World, p *packages.Package, getType *types.Func, unknown *types.Const) *types.Func {
 	gt := funcDecl(p, getType.Name())
 	if gt == nil || gt.Body == nil || gt.Type.Params == nil || len(gt.Type.Params.List) != 1 || len(gt.Type.Params.List[0].Names) != 1 {
 		return nil
@@ -2213,6 +2213,9 @@ func t2sharedDecoder(p *packages.Package, getType *types.Func, unknown *types.Co
 			}
 			if t2isNilIdent(p, x.Results[1]) && t2obj(p, x.Results[0]) == types.Object(unknown) {
 				return true
+			}
+			if t2isNilIdent(p, x.Results[1]) && nilOnlyWithUnknown(w, g, unknown) {
+				return true // a variable that holds the unknown type on this path: decided on the compiled function
 			}
 			ok = false
 		}
@@ -2669,4 +2672,34 @@ func t2c02AlgoNames(c *Ctx) {
 		}
 		c.Check(good, rule, ikey, w.Pos(dc.Pos()), "DecodeHook: StringToX509PublicKeyAlgo()", "DecodeHook is not (a composition containing) a call of StringToX509PublicKeyAlgo")
 	}
+}
+
+// nilOnlyWithUnknown: on every return of g (results: type, decoded KeyID) whose second result can be nil, the first
+// result is the unknown-type constant on every path.
+func nilOnlyWithUnknown(w *World, g *types.Func, unknown *types.Const) bool {
+	fn := w.Prog.FuncValue(g)
+	if fn == nil || len(fn.Blocks) == 0 {
+		return false
+	}
+	for _, r := range liveReturns(fn) {
+		if len(r.Results) != 2 {
+			return false
+		}
+		mayNil := false
+		for _, lf := range w.leaves(r.Results[1], r, false) {
+			if isNilConst(strip(lf.Val)) {
+				mayNil = true
+			}
+		}
+		if !mayNil {
+			continue
+		}
+		for _, lf := range w.leaves(r.Results[0], r, false) {
+			k, isK := strip(lf.Val).(*ssa.Const)
+			if !isK || k.Value == nil || !constant.Compare(k.Value, token.EQL, unknown.Val()) {
+				return false
+			}
+		}
+	}
+	return true
 }
